@@ -193,8 +193,15 @@ def domain_tuple_rule(ctx, rule, fi, ndims_attr="self.ndims", gs="self.grid_size
     env = rules.local_env(fi.node)
     n_ok = 0
     bad = []
+    cands = []
     for n in walk_no_nested(fi.node):
-        if isinstance(n, ast.Assign) and isinstance(n.value, ast.JoinedStr) and norm(n.targets[0]) in ("tup",):
+        # the tuple template is recognised by its content (an f-string that opens `((0`), wherever it is written:
+        # bound to a local, appended directly, or inside a comprehension
+        if isinstance(n, ast.JoinedStr) and n.values and isinstance(n.values[0], ast.Constant) \
+                and str(n.values[0].value).startswith("((0"):
+            cands.append(n)
+    for n in [ast.Assign(targets=[ast.Name(id="tup", ctx=ast.Store())], value=c) for c in cands]:
+        if True:
             parts = grammar.template(n.value, env)
             lines, _ = grammar.split_lines(parts + ["\n"], ())
             toks = lines[0]
